@@ -123,7 +123,7 @@ def entry_loops(run, model, entry_name, rule='HSM-BUF.O5-entry-loop'):
         sites = classify_sites(f)
         defs = local_defs(f.node)
         for h in g.loop_heads():
-            if h.kind != 'test':
+            if h.kind not in ('test', 'for'):
                 continue
             body = g.loop_body(h)
             calls = []
@@ -138,6 +138,9 @@ def entry_loops(run, model, entry_name, rule='HSM-BUF.O5-entry-loop'):
             if not calls:
                 continue
             n_loops += 1
+            if h.kind == 'for':
+                _entry_for_loop(run, rule, f, g, h, body, calls, ba, fr)
+                continue
             # index variable: subscript of the buffer in the callee expression (or in the single definition of the callee local)
             idxvars = set()
             for n, c in calls:
@@ -192,6 +195,43 @@ def entry_loops(run, model, entry_name, rule='HSM-BUF.O5-entry-loop'):
                      '' if ok else ('at the exit of the entry loop the index %s is not provably %d: the loop stops before the target (slot 0) was entered or runs past it '
                                     'into negative indices; abstract exit state: %s' % (j, want, state_txt)), node=h.ast, obligation=True)
     return n_loops
+
+
+def _entry_for_loop(run, rule, f, g, h, body, calls, ba, fr):
+    """counted form of an entry loop: `for x in reversed(buf[:n])` / `for i in range(a, -1, -1): buf[i](..)` visits the slots n-1..0 (a..0) once each,
+    in descending order, by the semantics of the iteration; what is left to decide is that the body uses the loop variable for exactly one ENTRY call
+    per iteration, never rebinds it and never leaves early"""
+    st = h.stmt
+    shape = ba.for_shape(st, fr.bufenv)
+    key = 'entry loop `for %s in %s`' % (norm(st.target), norm(st.iter))
+    if shape is None:
+        raise AnalysisError('%s: ENTRY calls inside a for-loop of an unrecognised form (%s)' % (f.qualname, norm(st.iter)))
+    tname = st.target.id
+    rebinding = [n for n in body if n.kind == 'stmt' and any(isinstance(t, ast.Name) and isinstance(t.ctx, ast.Store) and t.id == tname for t in ast.walk(n.ast))]
+    early = [n for n in body if n.kind == 'stmt' and isinstance(n.ast, (ast.Break, ast.Return)) and any(x is n.ast for x in ast.walk(st))
+             and not any(x is n.ast for hh in g.loop_heads() if hh is not h and hh in body for x in ast.walk(hh.stmt))]
+    if shape[0] == 'rslice':
+        uses_var = all(isinstance(c.func, ast.Name) and c.func.id == tname for n, c in calls)
+        order_ok = True
+        ends_ok = True
+    else:
+        _, a, b, step = shape
+        uses_var = all(isinstance(c.func, ast.Subscript) and isinstance(c.func.value, ast.Name) and c.func.value.id in fr.bufenv
+                       and isinstance(c.func.slice, ast.Name) and c.func.slice.id == tname for n, c in calls)
+        order_ok = step == -1
+        ends_ok = isinstance(b, ast.UnaryOp) and isinstance(b.op, ast.USub) and isinstance(b.operand, ast.Constant) and b.operand.value == 1
+    start = [m for m, l in g.succ[h] if l == 'iter']
+    per_call = queues.count(g, [n for n, c in calls], start=start[0], end=h) if start else None
+    ok = uses_var and order_ok and not rebinding
+    run.inst(rule, f, key + ': index steps by exactly -1 once per iteration', ok,
+             '' if ok else 'the counted entry loop does not walk the path buffer downwards through its own loop variable (uses loop variable: %s, descending: %s, rebinds it: %d)'
+             % (uses_var, order_ok, len(rebinding)), node=st, obligation=True)
+    ok = per_call == (1, 1)
+    run.inst(rule, f, key + ': exactly one ENTRY call per iteration', ok, '' if ok else 'an iteration of the entry loop makes %s ENTRY calls' % (per_call,), node=st, obligation=True)
+    ok = ends_ok and not early
+    run.inst(rule, f, key + ': the loop ends exactly after slot 0', ok,
+             '' if ok else 'the counted entry loop does not run down to slot 0 (stop value %s, early exits: %d): the target state is not entered'
+             % (norm(shape[2]) if shape[0] == 'range' else '-', len(early)), node=st, obligation=True)
 
 
 # ---------------------------------------------------------------------------------------------- LCA match rule
@@ -706,6 +746,16 @@ def progress_rules(run, model, rule='HSM-PROGRESS'):
         sites = classify_sites(f, user_params=f.params[1:2] if nm == 'dispatch' else [])
         bufs, ints, flags = roles(f.node)
         for h in g.loop_heads():
+            if h.kind == 'for':
+                # a for-loop over range(..), reversed(list[..]) or a list iterates a finite sequence: it terminates by the semantics of the iteration
+                it = h.stmt.iter
+                finite = (isinstance(it, ast.Call) and isinstance(it.func, ast.Name) and it.func.id in ('range', 'reversed', 'enumerate', 'zip', 'list', 'tuple', 'sorted')) \
+                    or isinstance(it, (ast.Name, ast.Subscript, ast.Tuple, ast.List))
+                if not finite:
+                    raise AnalysisError('%s: for-loop over %s: unknown iteration' % (f.qualname, norm(it)))
+                n_loops += 1
+                run.inst(rule + '.loops', f, 'for %s in %s' % (norm(h.stmt.target), norm(it)), True, nontrivial=False, node=h.stmt)
+                continue
             if h.kind != 'test':
                 continue
             n_loops += 1
